@@ -265,9 +265,9 @@ def arrayStep2 (s : Store) (toks : List String) : Option (Store × String) :=
         match (⟨d, s.readView v⟩ : FArr Rat).setitem? key r with
         | some nx =>
           let nx := memoArr nx
-          -- `x[...] = ndarray` goes through `set_values`, which rebinds `values` to the (copied)
+          -- `x[...] = ndarray` (and, D31, `x[{}] = …`, `x[()] = …`) goes through `set_values`, which rebinds `values` to the (copied)
           -- array; every other assignment writes into the existing buffer
-          let rebinding := match key, r with | .ellipsis, .nd _ => true | _, _ => false
+          let rebinding := match r with | .nd _ => key.whole Gen.emptyKeyIsWholeArray | _ => false
           if rebinding then (s.putFresh hn nx, "ok " ++ showArr nx)
           else (s.writeView v nx.values, "ok " ++ showArr nx)
         | none => (s, "err")
@@ -342,8 +342,12 @@ def arrayStep2 (s : Store) (toks : List String) : Option (Store × String) :=
     -- Stock(dims, time_letter, [inflow/outflow/stock arrays], [lifetime model dims]): accepted or refused
     some (s, match s.dset? ds, tl.toList with
       | some dims, [t] =>
-        let arrs := rest.filter (fun r => strTake r 2 == "a:") |>.map (fun r => (s.arr? (strDrop r 2)).map (·.dims))
+        -- `a:$h`: wrapped into a StockArray over its own dimensions; `p:stock:$h`: a StockArray handed over as
+        -- it is; `p:other:$h`: an object of another array class as it is (the fields are typed: refused)
+        let arrs := (rest.filter (fun r => strTake r 2 == "a:") |>.map (fun r => (s.arr? (strDrop r 2)).map (·.dims))) ++
+          (rest.filter (fun r => strTake r 8 == "p:stock:") |>.map (fun r => (s.arr? (strDrop r 8)).map (·.dims)))
         let lms := rest.filter (fun r => strTake r 2 == "l:") |>.map (fun r => s.dset? (strDrop r 2))
+        if rest.any (fun r => strTake r 8 == "p:other:") then "err" else
         if arrs.any Option.isNone || lms.any Option.isNone then "err" else
         if stockAccepts dims t (arrs.filterMap id) (lms.filterMap id) then "ok" else "err"
       | _, _ => "err")
